@@ -220,7 +220,7 @@ class SymExec:
         for e in p["p"]:
             if e == "*":
                 v = self.read(st, loc)
-                if v[0] == "ref":
+                if v[0] in ("ref", "refv"):
                     loc = v[1]
                 else:
                     loc = ("deref", v)
@@ -252,7 +252,7 @@ class SymExec:
                 if r[0] == "ref" and pse.final_states:
                     # a promoted returns the address of its own temporary: take the value
                     fs = next(iter(pse.final_states.values()))
-                    return ("ref", pse.read(fs, r[1]), False)
+                    return ("refv", pse.read(fs, r[1]))
                 return r
             return ("unknown", "promoted")
         ty = self.fb.ty(v["ty"]).s if "ty" in v else "?"
@@ -261,9 +261,9 @@ class SymExec:
         if "bytes" in v:
             t = ("bytes", bytes(v["bytes"]), name)
             if v.get("ck") == "ptr":
-                return ("ref", t, False)
+                return ("refv", t)
             if v.get("ck") == "slice":
-                return ("ref", t, False)
+                return ("refv", t)
             return t
         if v.get("ck") == "zst":
             return ("zst", ty)
@@ -333,14 +333,20 @@ class SymExec:
         if name is None:
             f = self.operand(st, t["func"])
             name = "<indirect:%s>" % (f,)
-        local = bool(t.get("resolved_local")) and t.get("resolved") in self.fb.bodies
+        if name == "<T as std::convert::Into<U>>::into":
+            ra = [self.fb.ty(a["ty"]).s for a in t.get("resolved_args", []) if "ty" in a]
+            if len(ra) == 2:
+                cand = "<%s as std::convert::From<%s>>::from" % (ra[1], ra[0])
+                if cand in self.fb.bodies:
+                    name = cand
+        local = (bool(t.get("resolved_local")) or name in self.fb.bodies) and name in self.fb.bodies
         dest = self.place_loc(st, t["dest"])
         # in the recorded call term a reference argument is snapshotted to the pointee's value
         # at the call (hash inputs, comparison operands ... are about bytes, not addresses)
         # (a `&mut` argument is recorded as ("mutref", i): its old pointee is carried once, by
         # the ("after", call, i, old) effect term, which keeps chained updates linear in size)
         snap = tuple(
-            ((("mutref", i) if a[2] else ("ref", self.read(st, a[1]), False)) if a[0] == "ref" else a)
+            ((("mutref", i) if a[2] else ("refv", self.read(st, a[1]))) if a[0] == "ref" else a)
             for i, a in enumerate(args)
         )
         callterm = ("call", name, snap, site)
@@ -356,7 +362,7 @@ class SymExec:
                     a = args[pi - 1] if pi - 1 < len(args) else None
                     if a is None:
                         continue
-                    L = a[1] if a[0] == "ref" else ("deref", a)
+                    L = a[1] if a[0] in ("ref", "refv") else ("deref", a)
                     effs.append((L, sub.value(val)))
                 for L, v in effs:
                     self.write(st, L, v)
@@ -616,7 +622,7 @@ class Subst:
         k = t[0]
         if k == "deref":
             p = self.value(t[1])
-            if p[0] == "ref":
+            if p[0] in ("ref", "refv"):
                 return p[1]
             return ("deref", p)
         if k == "field":
@@ -657,6 +663,8 @@ class Subst:
             if k == "subslice":
                 return ("subslice", self.value(t[1]), t[2], t[3], t[4])
             return ("deref", self.value(t[1]))
+        if k == "refv":
+            return ("refv", self.value(t[1]))
         if k == "ref":
             L = self.loc(t[1]) if t[1][0] in ("deref", "field", "index", "cindex", "downcast", "subslice") else None
             if L is not None:
@@ -727,7 +735,7 @@ def show(t, depth=0, maxdepth=12):
         return "%d" % t[1]
     if k == "bytes":
         return (t[2] + "=" if t[2] else "") + (repr(t[1]) if len(t[1]) <= 8 else "bytes[%d]%s.." % (len(t[1]), t[1][:4].hex()))
-    if k == "ref":
+    if k in ("ref", "refv"):
         return "&%s" % s(t[1])
     if k == "deref":
         return "*%s" % s(t[1])
